@@ -37,6 +37,9 @@ def gen_constants(rng, amplified=True, npts=None):
         if rng.random() < 0.5:
             kw['rMin'] = rng.choice([0.1, 0.5, 1.5])
             kw['rMax'] = rng.choice([14.5, 9.0])
+            if rng.random() < 0.5:
+                # the peak of the profiles given explicitly, not at the middle of the radial domain
+                kw['rp'] = round(kw['rMin'] + (kw['rMax'] - kw['rMin']) * rng.choice([0.3, 0.62]), 4)
         if rng.random() < 0.4:
             zmin = rng.choice([-3.0, 10.0])
             kw['zMin'] = zmin
@@ -191,7 +194,7 @@ def relerr(a, b):
 # the driver's objects (mirrors fullSimulation.main set-up, lines 110-160)
 # ---------------------------------------------------------------------------
 class Pipeline:
-    def __init__(self, comm, f, constants, chi=0, save_step=1, adiabatic=True, edge='fEq'):
+    def __init__(self, comm, f, constants, chi=0, save_step=1, adiabatic=True, edge='fEq', B=None):
         from pygyro.model.layout import LayoutSwapper, getLayoutHandler
         from pygyro.model.grid import Grid
         from pygyro.poisson.poisson_solver import DensityFinder, QuasiNeutralitySolver
@@ -222,11 +225,12 @@ class Pipeline:
         self.rho = Grid(f.eta_grid[:3], f.getSpline(slice(0, 3)), self.remapperRho, 'v_parallel_2d', comm,
                         dtype=np.complex128)
         self.density = DensityFinder(6, f.getSpline(3), f.eta_grid, constants)
+        bkw = {} if B is None else dict(B=float(B))       # the optional magnetic-field factor (default 1)
         if adiabatic:
-            self.QN = QuasiNeutralitySolver(f.eta_grid[:3], 7, f.getSpline(0), constants, chi=chi)
+            self.QN = QuasiNeutralitySolver(f.eta_grid[:3], 7, f.getSpline(0), constants, chi=chi, **bkw)
         else:
             self.QN = QuasiNeutralitySolver(f.eta_grid[:3], 7, f.getSpline(0), constants,
-                                            adiabaticElectrons=False)
+                                            adiabaticElectrons=False, **bkw)
         self.parGrad = ParallelGradient(f.getSpline(1), f.eta_grid,
                                         self.remapperPhi.getLayout('v_parallel_1d'), constants)
 
